@@ -195,6 +195,7 @@ impl<'buf> Session<'buf> {
         self.runtime.keepalive_interval = keepalive_interval;
         self.runtime.send_quota = send_quota;
         self.runtime.max_send_quota = max_send_quota;
+        self.data.outbound.set_publish_window(max_send_quota);
         self.runtime.max_qos = max_qos;
         self.runtime.maximum_packet_size = maximum_packet_size;
         if let Some(assigned_client_id) = assigned_client_id {
